@@ -330,6 +330,16 @@ def run_case(case, ctx):
         q = rng.uniform(-0.95, 0.95, size=size)
         ties = rng.random(size) < 0.15
         es = [np.where(ties, L, L + a * q ** k).reshape(shape) for k in range(3)]
+        if len(shape) >= 2:
+            lay = ['C', 'F', 'swapped', 'mixed'][case['seed'] % 4]
+            if lay == 'F':
+                es = [np.asfortranarray(v) for v in es]
+            elif lay == 'swapped':
+                es = [np.ascontiguousarray(np.swapaxes(v, 0, -1)).swapaxes(0, -1) for v in es]
+            elif lay == 'mixed':
+                es = [es[0], np.asfortranarray(es[1]), es[2]]
+            if lay != 'C':
+                ctx.count('array_memory_layout:' + lay)
         copies = [np.array(v, copy=True) for v in es]
         try:
             res, err = dea3(*es)
